@@ -161,9 +161,16 @@ class C03(RecorderProp):
             steps = [[rng.choice(['in', 'out', 'out']), rng.randint(0, 3)] for _ in range(rng.randint(1, 5))]
             steps.insert(rng.randint(0, len(steps)), ['play', rng.choice(['known', 'known', 'unknown'])])
             cases.append({'kind': 'playinside', 'model': False, 'steps': steps, 'end': rng.choice(['ret', 'ret', 'raise'])})
+        # + operations whose metadata extractor sends an intercepted output of its own after the operation (not modelled)
+        from harness import effects_cases as E
+        for _ in range(self.THREADS[tier] // 2):
+            cases.append(E.gen_effects_case(rng))
         return cases
 
     def run_impl(self, case):
+        if case.get('kind') == 'effects':
+            from harness import effects_cases as E
+            return E.run_effects_case(case)
         if case.get('kind') == 'playinside':
             from harness.props.c05 import C05
             return C05.run_playinside_case(self, case)
@@ -173,6 +180,8 @@ class C03(RecorderProp):
         return super(C03, self).run_impl(case)
 
     def features(self, case, impl):
+        if case.get('kind') == 'effects':
+            return ['metadata-extractor-sends-an-output' if case['extractor_calls_output'] else 'metadata-extractor-plain']
         if case.get('kind') == 'playinside':
             return ['replay-inside-a-recorded-operation' + (':outputs-before-and-after' if self.k10_shape(case) else '')]
         if case.get('kind') == 'threads':
@@ -180,7 +189,7 @@ class C03(RecorderProp):
         return super(C03, self).features(case, impl)
 
     def sample_repr(self, case):
-        return case if case.get('kind') in ('threads', 'playinside') else super(C03, self).sample_repr(case)
+        return case if case.get('kind') in ('threads', 'playinside', 'effects') else super(C03, self).sample_repr(case)
 
     @staticmethod
     def sent_by_threads(case):
@@ -236,6 +245,16 @@ class C03(RecorderProp):
         return any(k == 'play' and 'out' in kinds[:i] and 'out' in kinds[i + 1:] for i, k in enumerate(kinds))
 
     def oracle(self, case, impl):
+        if case.get('kind') == 'effects':
+            from harness import effects_cases as E
+            if not impl.get('saved'):
+                return ['an operation with a metadata extractor was not saved (%r)' % (impl['rec_end'],)]
+            want = E.sent_by_operation(case)
+            if impl['recorded_outputs'] != want:
+                return ['the operation sent %r on alias audit%s; its recording holds %r'
+                        % (want, ' (its metadata extractor sent one more afterwards: not an output of the operation)'
+                           if case['extractor_calls_output'] else '', impl['recorded_outputs'])]
+            return []
         if case.get('kind') == 'playinside':
             if impl.get('recorded_snd') is None:
                 return []       # (not saved: C05's business)
@@ -288,6 +307,8 @@ class C03(RecorderProp):
         return None
 
     def nontrivial(self, case, impl):
+        if case.get('kind') in ('effects',):
+            return True
         if case.get('kind') == 'playinside':
             return True
         if case.get('kind') == 'threads':
@@ -295,7 +316,7 @@ class C03(RecorderProp):
         return any(sp['kind'] == 'out' for sp in case['sites'].values())
 
     def shrink(self, case):
-        if case.get('kind') in ('threads', 'playinside'):
+        if case.get('kind') in ('threads', 'playinside', 'effects'):
             return
         for ri in range(len(case['runs'])):
             sc = case['runs'][ri]['script']
